@@ -13,7 +13,8 @@ ASSUMPTIONS = ['payload theorems: carried elements are spliced in as identical v
                'roStorySend conversion shape, roReplace content, roMetadataReplace presence',
                'the correspondence compares complete trees, so every attribute, text, tail and child of a carried element is observed']
 
-SPECIAL = ['plain', 'a & b', '<tag>', '"quoted" \'single\'', ']]>', 'café ☃', '\U0001F600 astral', '  spaced  ', 'line\nbreak\ttab', '']
+SPECIAL = ['plain', 'a & b', '<tag>', '"quoted" \'single\'', ']]>', 'café ☃', '\U0001F600 astral', '  spaced  ', 'line\nbreak\ttab', '',
+           'e\u0301 decomposed', '\u212bngstr\u00f6m \u2126', '\u0338 struck through', '\ufb01 ligature \u1e9b\u0323']
 
 
 # vendor XML in a namespace of its own (as ElementTree names it): foreign elements called item, story, p, storyID ...
